@@ -25,7 +25,7 @@ CLAIMED = {
             "mask-respecting = allowed by the implementation's own mask", "6/C06"),
     "C07": ("TLC trace validation: PhysInv and conservation laws evaluated by TLC on every recorded state/transition; TLC model checking", TV,
             "random/illegal/masked policies; small and non-square grids", "6/C07"),
-    "C08": ("TLC trace validation with a return accumulator variable; dense and sparse reward functions run in lock-step", TV,
+    "C08": ("TLC trace validation with a return accumulator variable (and, where the objective is path-dependent, the model's own per-step reward); dense and sparse reward functions run in lock-step", TV,
             "fixed-point tolerance for float returns", "6/C08"),
     "C09": ("TLC trace validation: recorded (pre, action, post, reward, done) must satisfy StepRel of the TLA+ reference model, on played episodes and on "
             "TLC-dumped model states injected into the real code (all actions stepped); MC totality/determinism", TV,
@@ -43,13 +43,13 @@ LIB = ("TLA+ model of the library component (spec/lib/*.tla) model-checked by TL
        "computed from the native API; TLC judges every logged call against the law in the trace specification")
 CLAIMED.update({
     "C02": ("TLC trace validation with a memo-table monitor (PureFn.tla) over calls in eager/jit/vmap/scan/fresh-instance modes and histories, "
-            "including plain-Python replays of the most eventful transitions reached by directed policies", LIB,
+            "including plain-Python replays of the most eventful transitions reached by directed policies; the library's own auto-reset / vmap wrappers are driven as environments too", LIB,
             "results for identical arguments are classed with exact equality on ints/bools and 2e-5 relative tolerance on floats", "6/C02"),
     "C13": ("TLC trace validation of AutoResetWrapper calls (jit, vmap, scan, eager) on all environments against Wrappers.tla; MC_AutoReset freshness over split-terms", LIB,
             "oracle table from the unwrapped environment; keys/actions sampled", "6/C13"),
     "C14": ("TLC trace validation of VmapWrapper / VmapAutoResetWrapper / Vmap(AutoReset) on all environments; MC_AutoReset refinement over all termination patterns", LIB,
             "batch sizes 1..8; termination patterns arise from tiny time limits and illegal actions", "6/C14"),
-    "C15": ("TLC trace validation of gym / dm_env / MultiToSingle adapter calls against Adapters.tla (specification-side key schedule); MC_Adapters", LIB,
+    "C15": ("TLC trace validation of gym / dm_env / MultiToSingle adapter calls (shipped environments, stacked wrappers and a user-written environment with row-wise bounds) against Adapters.tla (specification-side key schedule); MC_Adapters", LIB,
             "oracle table from native reset/step and jax.random.split", "6/C15"),
     "C16": ("TLC trace validation of jumanji.specs method calls against SpecsAlgebra.tla; MC_SpecsAlgebra laws over a small universe", LIB,
             "floats via exact monotone integer image; NaN not probed", "6/C16"),
